@@ -21,6 +21,9 @@ type SpecEnv struct {
 	old     *State // state old(...) refers to
 	depth   int
 	qvars   []string  // bound SMT variables of enclosing quantifiers (innermost last)
+	loop    *loopInfo // loop whose invariant is being evaluated (for atentry / sameregion)
+	fuel    int       // fuel of heap-dependent recursive function applications (when fuelSet)
+	fuelSet bool
 	pats    *[]string // pattern candidates of the innermost quantifier
 }
 
@@ -285,11 +288,19 @@ func (se *SpecEnv) selectField(base Val, name string) (Val, error) {
 	}
 	if _, ok := t.Underlying().(*types.Struct); ok {
 		dt := string(fc.vc.sortOf(t))
-		for _, f := range fc.vc.fieldsOf(t) {
+		for i, f := range fc.vc.fieldsOf(t) {
 			if f.name == name {
 				ft := f.typ
 				if ft == nil {
 					ft = tInt
+				}
+				// projection of a constructor application simplifies at generation time
+				if strings.HasPrefix(base.T, "(mk."+dt+" ") {
+					parts := splitTop(base.T[1 : len(base.T)-1])
+					if len(parts) == len(fc.vc.fieldsOf(t))+1 {
+						se.notePattern(parts[i+1])
+						return Val{T: parts[i+1], S: f.sort, Typ: ft}, nil
+					}
 				}
 				return Val{T: "(" + structProj(dt, f.name) + " " + base.T + ")", S: f.sort, Typ: ft}, nil
 			}
@@ -482,6 +493,53 @@ func (se *SpecEnv) call(x *ast.CallExpr) (Val, error) {
 		}
 		c := fc.compAt(se.st, "F.math.big.Int.v", arraySort("Int"))
 		return Val{T: sel(c, p.T), S: SInt, Typ: tInt}, nil
+	case "atentry":
+		// value of an expression when the loop was entered
+		if se.loop == nil {
+			return Val{}, fmt.Errorf("atentry outside a loop invariant")
+		}
+		s := se.sub()
+		s.st = se.loop.inState
+		s.vars = fc.nameEnvAt(se.loop, se.loop.phiIn)
+		for k, v := range fc.letVals {
+			if _, ok := s.vars[k]; !ok {
+				s.vars[k] = v
+			}
+		}
+		return s.expr(x.Args[0])
+	case "sameregion":
+		// the slice still lives in the backing array it had at loop entry, or in one allocated since
+		if se.loop == nil {
+			return Val{}, fmt.Errorf("sameregion outside a loop invariant")
+		}
+		now, err := se.expr(x.Args[0])
+		if err != nil {
+			return Val{}, err
+		}
+		s := se.sub()
+		s.st = se.loop.inState
+		s.vars = fc.nameEnvAt(se.loop, se.loop.phiIn)
+		then, err := s.expr(x.Args[0])
+		if err != nil {
+			return Val{}, err
+		}
+		if now.S != SSlice {
+			return Val{}, fmt.Errorf("sameregion needs a slice")
+		}
+		return Val{T: mkOr(mkEq(proj("s-arr", now.T), proj("s-arr", then.T)), "(> "+proj("s-arr", now.T)+" "+se.loop.inAlloc+")"), S: SBool, Typ: tBool}, nil
+	case "loopfresh":
+		if se.loop == nil {
+			return Val{}, fmt.Errorf("loopfresh outside a loop invariant")
+		}
+		p, err := se.expr(x.Args[0])
+		if err != nil {
+			return Val{}, err
+		}
+		t := p.T
+		if p.S == SSlice {
+			t = proj("s-arr", p.T)
+		}
+		return Val{T: "(> " + t + " " + se.loop.inAlloc + ")", S: SBool, Typ: tBool}, nil
 	case "fresh":
 		p, err := se.expr(x.Args[0])
 		if err != nil {
@@ -504,6 +562,17 @@ func (se *SpecEnv) call(x *ast.CallExpr) (Val, error) {
 			t = proj("s-arr", p.T)
 		}
 		return Val{T: "(<= " + t + " " + a + ")", S: SBool, Typ: tBool}, nil
+	case "hashOf":
+		p, err := se.expr(x.Args[0])
+		if err != nil {
+			return Val{}, err
+		}
+		pt, ok := p.Typ.Underlying().(*types.Pointer)
+		if !ok {
+			return Val{}, fmt.Errorf("hashOf needs a *wire.BlockHeader")
+		}
+		ht := pt.Elem()
+		return Val{T: fc.hashOfHeader(se.st, p.T, ht), S: SInt, Typ: fc.hash32Type()}, nil
 	case "cause":
 		p, err := se.expr(x.Args[0])
 		if err != nil {
@@ -645,6 +714,9 @@ func (se *SpecEnv) call(x *ast.CallExpr) (Val, error) {
 		}
 		se.notePattern(term)
 		return Val{T: term, S: fc.vc.sortOf(pf.Ret), Typ: pf.Ret}, nil
+	}
+	if pf.Heap {
+		return se.heapFunc(pf, args)
 	}
 	if se.depth > 12 {
 		return Val{}, fmt.Errorf("pure function expansion too deep at %s (recursive?)", name)
@@ -810,4 +882,147 @@ func (se *SpecEnv) quantSort(kind string, x *ast.CallExpr) (Val, error) {
 		k = "exists"
 	}
 	return Val{T: mkQuant(k, m, fc.sortStr(t), rng, body, pats), S: SBool, Typ: tBool}, nil
+}
+
+// heapFunc: application of a heap-dependent recursive spec function. The SMT symbol takes the current versions of
+// the components listed in `reads` as extra arguments; closed applications are unfolded once (the definitional
+// equation is emitted as a background fact), which is exactly what a modular proof with the recursive call's
+// contract as induction hypothesis needs.
+func (se *SpecEnv) heapFunc(pf *PureFunc, args []Val) (Val, error) {
+	fc := se.fc
+	pkg := fc.prog.pkgByPath(pf.PkgPath)
+	var compTerms, compSorts []string
+	for _, r := range pf.Reads {
+		switch x := r.(type) {
+		case *ast.SelectorExpr:
+			t, err := resolveType(pkg, x.X)
+			if err != nil {
+				return Val{}, err
+			}
+			found := false
+			for _, f := range fc.vc.fieldsOf(t) {
+				if f.name == x.Sel.Name {
+					srt := arraySort(string(f.sort))
+					compTerms = append(compTerms, fc.compAt(se.st, fieldComp(t, f.name), srt))
+					compSorts = append(compSorts, srt)
+					found = true
+				}
+			}
+			if !found {
+				return Val{}, fmt.Errorf("reads: no field %s", exprString(r))
+			}
+		case *ast.CallExpr:
+			id, _ := x.Fun.(*ast.Ident)
+			if id == nil || len(x.Args) != 1 {
+				return Val{}, fmt.Errorf("unsupported reads item %s", exprString(r))
+			}
+			t, err := resolveType(pkg, x.Args[0])
+			if err != nil {
+				return Val{}, err
+			}
+			switch id.Name {
+			case "elems":
+				srt := arraySort(arraySort(fc.sortStr(t)))
+				compTerms = append(compTerms, fc.compAt(se.st, elemComp(t), srt))
+				compSorts = append(compSorts, srt)
+			case "maps":
+				mt, ok := t.Underlying().(*types.Map)
+				if !ok {
+					return Val{}, fmt.Errorf("maps needs a map type")
+				}
+				ks, vs := fc.mapSorts(mt)
+				mh, mv, _ := mapComps(t)
+				compTerms = append(compTerms, fc.compAt(se.st, mh, arraySort("(Array "+ks+" Bool)")), fc.compAt(se.st, mv, arraySort("(Array "+ks+" "+vs+")")))
+				compSorts = append(compSorts, arraySort("(Array "+ks+" Bool)"), arraySort("(Array "+ks+" "+vs+")"))
+			default:
+				return Val{}, fmt.Errorf("unsupported reads item %s", exprString(r))
+			}
+		default:
+			return Val{}, fmt.Errorf("unsupported reads item %s", exprString(r))
+		}
+	}
+	fn := "hf." + smtIdent(pf.Name)
+	sorts := append([]string{"Int"}, compSorts...)
+	var argSorts []string
+	for _, p := range pf.Params {
+		argSorts = append(argSorts, fc.sortStr(p.Type))
+	}
+	sorts = append(sorts, argSorts...)
+	fc.vc.declareFun(fn, sorts, fc.sortStr(pf.Ret))
+	fuel := maxFuel
+	if se.fuelSet {
+		fuel = se.fuel
+	}
+	app := func(fuel int, as []string) string {
+		return "(" + fn + " " + fmt.Sprintf("%d", fuel) + " " + strings.Join(append(append([]string{}, compTerms...), as...), " ") + ")"
+	}
+	var ts []string
+	for i := range pf.Params {
+		ts = append(ts, args[i].T)
+	}
+	term := app(fuel, ts)
+	se.notePattern(term)
+	res := Val{T: term, S: fc.vc.sortOf(pf.Ret), Typ: pf.Ret}
+	// definitional axioms for this heap tuple, once: fuel-bounded unfolding (Dafny style) so that E-matching
+	// cannot loop along the parent chain
+	key := fn + "|" + strings.Join(compTerms, "|")
+	if !fc.vc.unfolded[key] {
+		fc.vc.unfolded[key] = true
+		for level := maxFuel; level >= 1; level-- {
+			fc.vc.nfresh++
+			var qs, decl []string
+			s := se.sub()
+			s.fuel, s.fuelSet = level-1, true
+			s.depth = se.depth + 1
+			s.pkgPath = pf.PkgPath
+			s.vars = map[string]Val{}
+			s.pats = nil
+			s.qvars = nil
+			for i, p := range pf.Params {
+				q := fmt.Sprintf("q!%s!%d", p.Name, fc.vc.nfresh)
+				qs = append(qs, q)
+				decl = append(decl, "("+q+" "+argSorts[i]+")")
+				s.vars[p.Name] = Val{T: q, S: fc.vc.sortOf(p.Type), Typ: p.Type}
+			}
+			body, err := s.expr(pf.Body)
+			if err != nil {
+				return Val{}, fmt.Errorf("in %s: %v", pf.Name, err)
+			}
+			bt := body.T
+			if body.Typ == untypedNil && res.S == SSlice {
+				bt = mkSlice("0", "0", "0", "0")
+			}
+			lhs := app(level, qs)
+			fc.vc.assert("(forall (" + strings.Join(decl, " ") + ") (! (and (= " + lhs + " " + bt + ") (= " + lhs + " " + app(level-1, qs) + ")) :pattern (" + lhs + ")))")
+			// typing: for arguments allocated in this state the result (read from the heap) is well typed here
+			frontier := fc.compAt(se.st, "alloc", "Int")
+			var guards []string
+			for i, p := range pf.Params {
+				switch p.Type.Underlying().(type) {
+				case *types.Pointer, *types.Map, *types.Chan:
+					guards = append(guards, "(<= "+qs[i]+" "+frontier+")")
+				}
+			}
+			wt := fc.wellTyped(lhs, pf.Ret, frontier, 1)
+			if wt != "true" {
+				fc.vc.assert("(forall (" + strings.Join(decl, " ") + ") (! " + mkImplies(mkAnd(guards...), wt) + " :pattern (" + lhs + ")))")
+				if level == 1 {
+					l0 := app(0, qs)
+					fc.vc.assert("(forall (" + strings.Join(decl, " ") + ") (! " + mkImplies(mkAnd(guards...), fc.wellTyped(l0, pf.Ret, frontier, 1)) + " :pattern (" + l0 + ")))")
+				}
+			}
+		}
+	}
+	return res, nil
+}
+
+const maxFuel = 2
+
+func (fc *FnCtx) hash32Type() types.Type {
+	if sp := fc.prog.SSAPkgs["github.com/tokenized/pkg/bitcoin"]; sp != nil {
+		if o := sp.Pkg.Scope().Lookup("Hash32"); o != nil {
+			return o.Type()
+		}
+	}
+	return tInt
 }
